@@ -11,7 +11,9 @@ from ..lib.core import f2b, b2f
 logging.disable(logging.WARNING)
 warnings.filterwarnings('ignore')
 
-TRUSTED = ['the torch refract loop is modelled with fuel 100000 (refrLoop); epsilon in reflect and the default tolerance are regenerated constants']
+TRUSTED = ['the torch refract loop is modelled with fuel 100000 (refrLoop); epsilon in reflect and the default tolerance are regenerated constants',
+           'reflect and the straight-line parts / loop body of refract are regenerated from the source and proved equal to the model (GenGeometry.lean); the '
+           'while loop itself is the hand-written refrLoop']
 ASSUMPTIONS = ['unit incident directions, non-zero normals, index pairs with a transmitted solution (no total internal reflection); '
                'float32 in the torch API: tolerance 5e-4']
 
